@@ -226,7 +226,11 @@ def eval_program(arg) -> dict:
                                       'klass': mech + (':non-holder-release' if _non_holder_release(detail) else '')})
         if len(out['violations']) > 40:
             break
-    return progrun.finish_program(prog, out, case)
+    example = next((h for _c, h, ex in histories if not ex and len(h) >= 5), None)
+    sample = {'component': case['component'], 'multiclient': case['cfg']['multiclient'],
+              'history_example': [list(o) for o in (example or [])][:14],
+              'histories_run': cnt.get('histories', 0)}
+    return progrun.finish_program(prog, out, case, sample=sample)
 
 
 def _non_holder_release(detail) -> bool:
